@@ -6,7 +6,7 @@ after every operation.  Faults: chunking, preload, drop, halt, dup, burst, off-g
 """
 from __future__ import annotations
 
-from .. import refmodels, world
+from .. import planlib, refmodels, world
 from ..catalogue import mk_candles
 from ..subjects import ROUTES, build_route
 from ..core import Discard, LibError, Violation, run_property
@@ -77,6 +77,9 @@ def plan(seed, subbatch):
         if "recollapse" in kinds:
             recollapse = cfg.randint(1, 4)
     start = world.pick_start(cfg, base_s, tf_s, start_mode)
+    env = planlib.dst_env(sub_rng(seed, "env"), n, base_s)
+    if env:
+        start = env[1]     # the stream straddles an offset change of the zone the process runs in
     regimes = None
     if subbatch == "faulty" and cfg.random() < 0.4:
         regimes = world.REGIMES_NORMAL + ["zerovol", "stall0", "stall"]
@@ -96,7 +99,7 @@ def plan(seed, subbatch):
     ops += world.schedule(feed, rows[k:], sizes, extras)
     fired["preload_%s" % ("none" if k == 0 else "one" if k == 1 else "all" if k == len(rows) else "some")] += 1
     return {"format": 1, "property": ID, "seed": seed, "subbatch": subbatch,
-            "config": {"route": route, "tf": tf, "base_s": base_s, "level_tf": level, "siblings": siblings,
+            "config": {"process_tz": env[0] if env else None, "route": route, "tf": tf, "base_s": base_s, "level_tf": level, "siblings": siblings,
                        # timezone-aware streams (fixed offsets that do not divide the larger timeframes)
                        "utc_offset_min": cfg.choice((None, None, None, 60, 330, -210, 345))},
             "ops": ops, "fired": dict(fired)}
